@@ -1451,8 +1451,11 @@ hdf_read_attrs(XDR *xdrs, NC *handle, int32 vg)
                     HGOTO_FAIL(NULL);
 
                 if (type == NC_CHAR) {
-                    if ((attr_size = VFfieldorder(vs, 0)) == FAIL)
+                    /* DFNT_CHAR is stored as one record of order n, DFNT_UCHAR as n records of order 1 */
+                    int32 order = VFfieldorder(vs, 0);
+                    if (order == FAIL)
                         HGOTO_FAIL(NULL);
+                    attr_size *= order;
 
                     ((char *)values)[attr_size] = '\0';
                 }
